@@ -129,8 +129,25 @@ class Built:
     pass
 
 
+def add_unknowns(rng, psbt):
+    """proprietary / unknown key-value pairs in the global, input and output maps"""
+    psbt.extra_map[bytes([rng.choice([0x0F, 0xFC, 0x20])]) + rbytes(rng, rng.randrange(0, 6))] = rbytes(rng, rng.randrange(0, 9))
+    for pi in psbt.psbt_ins:
+        if rng.random() < 0.6:
+            pi.extra_map[bytes([rng.choice([0x0F, 0xFC, 0x30])]) + rbytes(rng, rng.randrange(0, 6))] = rbytes(rng, rng.randrange(1, 9))
+    for po in psbt.psbt_outs:
+        if rng.random() < 0.4:
+            po.extra_map[bytes([rng.choice([0x0F, 0xFC, 0x30])]) + rbytes(rng, rng.randrange(0, 6))] = rbytes(rng, rng.randrange(1, 9))
+
+
+def branch_index(root_path):
+    """(branch, index) of a wallet key's root path `<base>/<branch>/<index>`"""
+    comps = root_path.split("/")
+    return int(comps[-2]), int(comps[-1])
+
+
 def build_psbt(rng, w, n_inputs=1, n_spend=1, with_change=True, global_xpubs=False, unknowns=False,
-               segwit_flag=False, fee=None):
+               segwit_flag=False, fee=None, defer=False):
     """create + update through PSBT.create (tx_lookup / pubkey_lookup / redeem_lookup / witness_lookup)"""
     from buidl.tx import Tx, TxIn, TxOut
     from buidl.psbt import PSBT
@@ -195,18 +212,15 @@ def build_psbt(rng, w, n_inputs=1, n_spend=1, with_change=True, global_xpubs=Fal
             g = w.global_xpub(k)
             hd_pubs[g.raw_serialize()] = g
     b.lookups = (tx_lookup, pubkey_lookup, redeem_lookup, witness_lookup)
+    b.tx_obj = tx_obj
+    b.total_in, b.fee = total, fee
+    if defer:
+        return b
     psbt = PSBT.create(tx_obj, validate=True, tx_lookup=tx_lookup, pubkey_lookup=pubkey_lookup,
                        redeem_lookup=redeem_lookup, witness_lookup=witness_lookup, hd_pubs=hd_pubs)
     if unknowns:
-        psbt.extra_map[bytes([rng.choice([0x0F, 0xFC, 0x20])]) + rbytes(rng, rng.randrange(0, 6))] = rbytes(rng, rng.randrange(0, 9))
-        for pi in psbt.psbt_ins:
-            if rng.random() < 0.6:
-                pi.extra_map[bytes([rng.choice([0x0F, 0xFC, 0x30])]) + rbytes(rng, rng.randrange(0, 6))] = rbytes(rng, rng.randrange(1, 9))
-        for po in psbt.psbt_outs:
-            if rng.random() < 0.4:
-                po.extra_map[bytes([rng.choice([0x0F, 0xFC, 0x30])]) + rbytes(rng, rng.randrange(0, 6))] = rbytes(rng, rng.randrange(1, 9))
+        add_unknowns(rng, psbt)
     b.psbt = psbt
-    b.total_in, b.fee = total, fee
     return b
 
 
@@ -327,7 +341,7 @@ class Oracle:
 
         def verify_input(self, i):
             ti = self.tx_ins[i]
-            k = ("vi", _tx_key(self), i, self.segwit, ti.script_sig.raw_serialize(), tuple(ti.witness.items))
+            k = ("vi", _tx_key(self), i, self.segwit, _raw(ti.script_sig), tuple(ti.witness.items) if ti.witness else ())
             r = _memo(k, lambda: sv["vi"](self, i))
             o.ver[i] = bool(r)
             return r
